@@ -107,9 +107,10 @@ inductive IsPyFloatRepr : Str → Prop
   | exp (neg ds e : Str) : neg = [] ∨ neg = ['-'] → ds ≠ [] → AsciiDigits ds → IsPyExp e →
       IsPyFloatRepr (neg ++ ds ++ e)
 
-/-- the string may be written bare: non-empty, no `$`, no quote, no character of the "complex" class -/
+/-- the string may be written bare: non-empty, no `$`, no quote, no character of the "complex" class, and it does not
+    start like an include directive (`#include…`) -/
 def Bare (s : Str) : Prop :=
-  s ≠ [] ∧ s.contains '$' = false ∧ s.all (fun c => !isQuote c && !isComplexChar c) = true
+  s ≠ [] ∧ s.contains '$' = false ∧ s.all (fun c => !isQuote c && !isComplexChar c) = true ∧ startsInclude s = false
 
 /-! ## helper lemmas -/
 
@@ -770,7 +771,7 @@ theorem formatString_def (fl : Flavor) (s : Str) : formatString fl s =
       | .native => if s.contains '"' then sq s else dq s
       | .foam => if s.contains '"' then dq (escapeDq s) else dq s
       | .base => sq s
-    else if s.any isComplexChar then
+    else if s.any isComplexChar || startsInclude s then
       match fl with | .native => sq s | .foam => dq s | .base => s
     else s := rfl
 
@@ -783,10 +784,10 @@ theorem formatString_of_dollar {fl : Flavor} (hfl : fl = .native ∨ fl = .foam)
   rcases hfl with rfl | rfl <;> simp only [formatString_def, hd, hr, if_true, Bool.false_eq_true, if_false]
 
 theorem formatString_of_bare {fl : Flavor} {s : Str} (h : Bare s) : formatString fl s = s := by
-  obtain ⟨hne, hd, hall⟩ := h
+  obtain ⟨hne, hd, hall, hi⟩ := h
   obtain ⟨hq, hc⟩ := (all_plain_iff s).mp hall
   have he : s.isEmpty = false := by simpa using hne
-  simp only [formatString_def, hd, he, hq, hc, Bool.false_eq_true, if_false]
+  simp only [formatString_def, hd, he, hq, hc, hi, Bool.or_self, Bool.false_eq_true, if_false]
 
 /-! ## the property -/
 
@@ -1045,7 +1046,7 @@ theorem C04_lower_safe : ∀ e ∈ Gen.lowersIntoAscii, ∀ x ∈ e.2, x ∉ [11
 
 theorem formatString_bare_iff {fl : Flavor} (hfl : fl = .native ∨ fl = .foam) (s : Str) :
     formatString fl s = s ↔
-      (s ≠ [] ∧ s.contains '$' = false ∧ s.all (fun c => !isQuote c && !isComplexChar c) = true) ∨
+      (s ≠ [] ∧ s.contains '$' = false ∧ s.all (fun c => !isQuote c && !isComplexChar c) = true ∧ startsInclude s = false) ∨
       (s.contains '$' = true ∧ isReferenceString s = true) := by
   constructor
   · intro h
@@ -1060,7 +1061,6 @@ theorem formatString_bare_iff {fl : Flavor} (hfl : fl = .native ∨ fl = .foam) 
       · subst hne
         rcases hfl with rfl | rfl <;> simp [formatString_def, sq, dq] at h
       · have he : s.isEmpty = false := by simpa using hne
-        refine ⟨hne, rfl, (all_plain_iff s).mpr ?_⟩
         cases hq : s.any isQuote with
         | true =>
           exfalso
@@ -1074,16 +1074,24 @@ theorem formatString_bare_iff {fl : Flavor} (hfl : fl = .native ∨ fl = .foam) 
             · exact dq_escape_ne s h
             · exact dq_ne s h
         | false =>
-          refine ⟨rfl, ?_⟩
           cases hc : s.any isComplexChar with
-          | false => rfl
           | true =>
             exfalso
             rcases hfl with rfl | rfl
-            · simp only [formatString_def, hd, he, hq, hc, Bool.false_eq_true, if_false, if_true] at h
+            · simp only [formatString_def, hd, he, hq, hc, Bool.true_or, Bool.false_eq_true, if_false, if_true] at h
               exact sq_ne s h
-            · simp only [formatString_def, hd, he, hq, hc, Bool.false_eq_true, if_false, if_true] at h
+            · simp only [formatString_def, hd, he, hq, hc, Bool.true_or, Bool.false_eq_true, if_false, if_true] at h
               exact dq_ne s h
+          | false =>
+            cases hi : startsInclude s with
+            | true =>
+              exfalso
+              rcases hfl with rfl | rfl
+              · simp only [formatString_def, hd, he, hq, hc, hi, Bool.or_true, Bool.false_eq_true, if_false, if_true] at h
+                exact sq_ne s h
+              · simp only [formatString_def, hd, he, hq, hc, hi, Bool.or_true, Bool.false_eq_true, if_false, if_true] at h
+                exact dq_ne s h
+            | false => exact ⟨hne, rfl, (all_plain_iff s).mpr ⟨hq, hc⟩, rfl⟩
   · rintro (h | ⟨hd, hr⟩)
     · exact formatString_of_bare h
     · exact formatString_of_ref hd hr
@@ -1091,9 +1099,9 @@ theorem formatString_bare_iff {fl : Flavor} (hfl : fl = .native ∨ fl = .foam) 
 /-- Native flavour, no `$`: the three ways a string is written, and exactly when -/
 theorem formatString_native_cases {s : Str} (hd : s.contains '$' = false) :
     (formatString .native s = s ∧
-        s ≠ [] ∧ s.all (fun c => !isQuote c && !isComplexChar c) = true) ∨
+        s ≠ [] ∧ s.all (fun c => !isQuote c && !isComplexChar c) = true ∧ startsInclude s = false) ∨
     (formatString .native s = sq s ∧
-        (s = [] ∨ s.contains '"' = true ∨ (s.any isComplexChar = true ∧ s.any isQuote = false))) ∨
+        (s = [] ∨ s.contains '"' = true ∨ ((s.any isComplexChar = true ∨ startsInclude s = true) ∧ s.any isQuote = false))) ∨
     (formatString .native s = dq s ∧
         s.contains '\'' = true ∧ s.contains '"' = false) := by
   by_cases hne : s = []
@@ -1113,11 +1121,16 @@ theorem formatString_native_cases {s : Str} (hd : s.contains '$' = false) :
     | false =>
       cases hc : s.any isComplexChar with
       | true =>
-        refine Or.inr (Or.inl ⟨?_, Or.inr (Or.inr ⟨rfl, rfl⟩)⟩)
-        simp only [formatString_def, hd, he, hq, hc, Bool.false_eq_true, if_false, if_true]
+        refine Or.inr (Or.inl ⟨?_, Or.inr (Or.inr ⟨Or.inl rfl, rfl⟩)⟩)
+        simp only [formatString_def, hd, he, hq, hc, Bool.true_or, Bool.false_eq_true, if_false, if_true]
       | false =>
-        refine Or.inl ⟨?_, hne, (all_plain_iff s).mpr ⟨hq, hc⟩⟩
-        simp only [formatString_def, hd, he, hq, hc, Bool.false_eq_true, if_false]
+        cases hi : startsInclude s with
+        | true =>
+          refine Or.inr (Or.inl ⟨?_, Or.inr (Or.inr ⟨Or.inr rfl, rfl⟩)⟩)
+          simp only [formatString_def, hd, he, hq, hc, hi, Bool.or_true, Bool.false_eq_true, if_false, if_true]
+        | false =>
+          refine Or.inl ⟨?_, hne, (all_plain_iff s).mpr ⟨hq, hc⟩, rfl⟩
+          simp only [formatString_def, hd, he, hq, hc, hi, Bool.or_self, Bool.false_eq_true, if_false]
 
 /-- the three outcomes are distinct strings, so the three conditions of `formatString_native_cases` exclude each other -/
 theorem formatString_native_outcomes_distinct (s : Str) : s ≠ sq s ∧ s ≠ dq s ∧ sq s ≠ dq s :=
@@ -1135,7 +1148,7 @@ theorem brackets_are_complex :
 theorem formatString_quotes_delims {fl : Flavor} (hfl : fl = .native ∨ fl = .foam) {s : Str} {c : Char} (hc : c ∈ s)
     (hcc : isComplexChar c = true) (hd : s.contains '$' = false) : formatString fl s ≠ s := by
   intro h
-  rcases (formatString_bare_iff hfl s).mp h with ⟨_, _, hall⟩ | ⟨hd', _⟩
+  rcases (formatString_bare_iff hfl s).mp h with ⟨_, _, hall, _⟩ | ⟨hd', _⟩
   · have := List.all_eq_true.mp hall c hc
     simp [hcc] at this
   · rw [hd] at hd'; cases hd'
